@@ -298,6 +298,10 @@ func (p *parser) parseByteSequence() ([]byte, error) {
 		return nil, errors.New("structuredheader: missing closing '*'")
 	}
 	s := p.getString(len)
+	// encoding/base64 silently skips CR and LF, which are not part of the byte sequence grammar.
+	if strings.ContainsAny(s, "\r\n") {
+		return nil, fmt.Errorf("structuredheader: invalid character in byte sequence %q", s)
+	}
 	enc := base64.StdEncoding
 	if len%4 != 0 {
 		// Allow unpadded encoding.
